@@ -120,7 +120,11 @@ func legSem(c *Ctx, rtl bool) {
 			alpha = alpha[:5]
 		}
 		var inputs [][]rune
-		allStrings(alpha, maxLen, func(s []rune) { inputs = append(inputs, s) })
+		ml := maxLen
+		if i < len(corpus) {
+			ml = maxLen + 1 // the directed shapes get one more rune (a loop taken past its minimum and still a tail to match)
+		}
+		allStrings(alpha, ml, func(s []rune) { inputs = append(inputs, s) })
 		for k := 0; k < 12; k++ {
 			inputs = append(inputs, randString(c.Rng, alpha, 10))
 		}
@@ -192,6 +196,21 @@ func adjacencyFamily() []*Ast {
 				out = append(out, cat(append(f(), l())...))
 			}
 		}
+	}
+	// alternations whose branches begin with the same single-character loop, with equal and unequal counts (what the
+	// common-prefix extraction may and may not factor out)
+	for _, mkAtom := range []func() *Ast{cls, func() *Ast { return &Ast{Kind: ADot} }} {
+		for _, cnt := range [][4]int{{2, 2, 2, 3}, {2, 3, 2, 2}, {1, 1, 1, -1}, {2, 2, 2, 2}, {0, 1, 0, 2}, {2, 2, 3, 3}, {1, 2, 1, 2}} {
+			for _, lazy := range []bool{false, true} {
+				out = append(out, alt(cat(rep(mkAtom(), cnt[0], cnt[1], lazy), lit('x')), cat(rep(mkAtom(), cnt[2], cnt[3], lazy), lit('y'))))
+			}
+		}
+		out = append(out, alt(cat(rep(mkAtom(), 2, 2, false), lit('x')), cat(rep(mkAtom(), 2, 3, false), lit('y')), cat(rep(mkAtom(), 2, 2, false), lit('z'))))
+	}
+	// an anchor first or last next to a literal (the candidate-position filters of both scan directions key on them)
+	for _, an := range []string{"^", "$", `\A`, `\z`, `\Z`, `\b`, `\B`} {
+		a := func() *Ast { return &Ast{Kind: AAnchor, Name: an} }
+		out = append(out, cat(a(), lit('b')), cat(lit('b'), a()), cat(lit('a'), lit('b'), a()), cat(a(), lit('a'), lit('b')), cat(grp(lit('b')), a()), cat(a(), grp(lit('b'))))
 	}
 	return out
 }
